@@ -7,6 +7,7 @@ import CG.Sem
 import CG.Proofs.Tseitin
 import CG.Proofs.Cnf
 import CG.Proofs.Acyclic
+import CG.Proofs.DpllP
 namespace CG.C01
 
 /-- static tie: the clause templates extracted from sat.py are the ones these proofs are about -/
@@ -179,5 +180,9 @@ example : Clean ex2 := by
     simp only [ex2, List.mem_cons, List.not_mem_nil, or_false] at hp
     rcases hp with rfl | rfl | rfl <;> cases hpt <;>
       first | exact absurd hm (by decide) | decide
+
+/-- the solver contract assumed by `solve_sound`/`solve_complete` (and by C04, C08, C11) is satisfiable: the DPLL solver
+    the driver runs the solver-based models with is sound and complete for every formula -/
+theorem solver_contract_satisfiable : SolverSpec Dpll.dpll := Dpll.dpll_spec
 
 end CG.C01
